@@ -33,6 +33,11 @@ func c09Round2(c *Ctx) {
 		c.Check(f.OK, "R09i", f.Key, f.Pos, "guarded", f.Detail)
 	}
 	c.runControl("R09i deferred overwrite control (ctl/deferr.Copy)", "deferr.Copy", deferOverwritesError)
+	// ---- R09k
+	c.Rule("R09k", "a request's GetBody yields a new reading of the source, never the stream captured when the request was built", 1)
+	for _, f := range getBodyFresh(p) {
+		c.Check(f.OK, "R09k", f.Key, f.Pos, "fresh reader", f.Detail)
+	}
 	// ---- R09j
 	if fn := p.Func("lib/signappx.(*blockMap).AddFile"); fn == nil {
 		c.Undecided("R09j", "(*blockMap).AddFile", "-", "function not found")
@@ -375,4 +380,62 @@ func onlyErrorReturns(p *Prog, fn *ssa.Function, s *ssa.BasicBlock, L map[int]bo
 		}
 	}
 	return true
+}
+
+// getBodyFresh (R09k): when the HTTP stack replays a request by itself (307/308, a refused HTTP/2
+// stream) it asks GetBody for the body. The answer must be a new reading of the source - a reader
+// made inside the function (bytes.NewReader of the encoded bytes, a fresh GetReader()) - never the
+// stream that was captured when the request was built, of which the first send consumed some or all.
+func getBodyFresh(p *Prog) (out []gFinding) {
+	n := 0
+	for _, fn := range p.Funcs {
+		for _, b := range fn.Blocks {
+			for _, in := range b.Instrs {
+				st, ok := in.(*ssa.Store)
+				if !ok {
+					continue
+				}
+				tn, f, _ := p.fieldAddr(st.Addr)
+				if !strings.HasSuffix(tn, "net/http.Request") || f != "GetBody" {
+					continue
+				}
+				n++
+				key := fmt.Sprintf("%s GetBody#%d", p.FName(fn), n)
+				mc, ok := st.Val.(*ssa.MakeClosure)
+				if !ok {
+					// a plain function (no captured state) or nil
+					out = append(out, gFinding{Key: key, Pos: p.Pos(st.Pos()), OK: true, Detail: "no captured state"})
+					continue
+				}
+				anon := mc.Fn.(*ssa.Function)
+				bad := ""
+				for _, r := range returnsOf(anon) {
+					if len(r.Results) == 0 {
+						continue
+					}
+					// the returned reader hangs on a captured reader value
+					dependsOn(r.Results[0], func(x ssa.Value) bool {
+						fv, ok := x.(*ssa.FreeVar)
+						if !ok {
+							return false
+						}
+						t := fv.Type()
+						if pt, isP := t.Underlying().(*types.Pointer); isP {
+							t = pt.Elem()
+						}
+						if _, isIface := t.Underlying().(*types.Interface); isIface {
+							ms := types.NewMethodSet(t)
+							if ms.Lookup(nil, "Read") != nil && ms.Lookup(nil, "GetReader") == nil {
+								bad = fv.Name()
+							}
+						}
+						return false
+					})
+				}
+				out = append(out, gFinding{Key: key, Pos: p.Pos(st.Pos()), OK: bad == "",
+					Detail: "GetBody hands back the reader captured in " + bad + ", the very stream the first send has already read from: a replay by the HTTP stack (307/308 redirect, refused HTTP/2 stream) uploads only what is left of it, and the next server digests and signs that remainder"})
+			}
+		}
+	}
+	return out
 }
